@@ -584,7 +584,7 @@ def explore(ctx, case, rng):
     tree0, spec0 = make_tree(spec0, case["rooted"], case["unit"])
     frontier = [(spec0, case["rooted"], [])]
     seen = set()
-    budget_states = 250 if ctx.tier == "quick" else 1500
+    budget_states = 250 if ctx.tier == "quick" else 400
     for depth in range(case["depth"]):
         nxt = []
         for spec, rooted, hist in frontier:
@@ -593,7 +593,7 @@ def explore(ctx, case, rng):
             if depth == 0:
                 ops = [o for k, o in enumerate(ops) if k % case["parts"] == case["part"]]
             elif depth >= 2:
-                ops = [o for k, o in enumerate(ops) if rng.random() < 0.15]
+                ops = [o for k, o in enumerate(ops) if rng.random() < 0.05]
             for d in ops:
                 tree = rebuild(spec, rooted)
                 h2 = hist + [d]
